@@ -409,9 +409,9 @@ func (r *dRun) write(prod, i int) {
 	p := r.payload(prod, i)
 	wr := &dWrite{Prod: prod, I: i, ID: idOf(p), Sum: crc32.ChecksumIEEE(p), Len: len(p)}
 	r.wmu.Lock()
+	wr.Call = atomic.AddInt64(&r.clk, 1)
 	r.writes = append(r.writes, wr)
 	r.wmu.Unlock()
-	atomic.StoreInt64(&wr.Call, atomic.AddInt64(&r.clk, 1))
 	r.dw.Write(p)
 	ret := atomic.AddInt64(&r.clk, 1)
 	r.wmu.Lock()
@@ -639,18 +639,34 @@ func (r *dRun) doClose(limit time.Duration) {
 
 // ---- derived facts -----------------------------------------------------------------------------------
 
-func (r *dRun) counts() (written, returned, delivered int, alerts int64) {
+// W and D return consistent copies of the recorded writes / deliveries (a producer that a broken tree left
+// spinning may still be updating its record while the run is judged).
+func (r *dRun) W() []*dWrite {
 	r.wmu.Lock()
-	written = len(r.writes)
-	for _, w := range r.writes {
+	defer r.wmu.Unlock()
+	out := make([]*dWrite, len(r.writes))
+	for i, w := range r.writes {
+		c := *w
+		out[i] = &c
+	}
+	return out
+}
+
+func (r *dRun) D() []dDelivery {
+	r.dmu.Lock()
+	defer r.dmu.Unlock()
+	return append([]dDelivery(nil), r.deliveries...)
+}
+
+func (r *dRun) counts() (written, returned, delivered int, alerts int64) {
+	ws := r.W()
+	written = len(ws)
+	for _, w := range ws {
 		if w.Returned {
 			returned++
 		}
 	}
-	r.wmu.Unlock()
-	r.dmu.Lock()
-	delivered = len(r.deliveries)
-	r.dmu.Unlock()
+	delivered = len(r.D())
 	return written, returned, delivered, atomic.LoadInt64(&r.alertSum)
 }
 
@@ -661,10 +677,10 @@ func (r *dRun) maxOutstanding() int {
 		d int
 	}
 	var evs []ev
-	for _, w := range r.writes {
+	for _, w := range r.W() {
 		evs = append(evs, ev{w.Call, +1})
 	}
-	for _, d := range r.deliveries {
+	for _, d := range r.D() {
 		evs = append(evs, ev{d.Exit, -1})
 	}
 	// insertion sort by t (small slices)
@@ -725,7 +741,7 @@ func (r *dRun) windows() map[string]int {
 			}
 		}
 	}
-	if r.nClaimed > int64(len(r.writes)) {
+	if r.nClaimed > int64(len(r.W())) {
 		w["position_retried"]++
 	}
 	for _, p := range r.cfg.Pauses {
@@ -756,7 +772,7 @@ func (r *dRun) describe() map[string]interface{} {
 		tr = append(tr, s)
 	}
 	var dl []string
-	for _, d := range r.deliveries {
+	for _, d := range r.D() {
 		dl = append(dl, d.ID)
 	}
 	return map[string]interface{}{"config": r.cfg.String(), "writes_started": wr, "writes_returned": ret, "delivered": del, "alert_sum": al, "positions_claimed": r.nClaimed,
